@@ -478,6 +478,13 @@ var cvFixed = []string{
 type cvPresc struct{ src, want, twin, clause string }
 
 var cvPrescribed = []cvPresc{
+	// repaired defect F34 (KNOWN_FINDINGS `fixed:` 96461b4; util.FindURLIndex accepted an autolink scheme of 33 characters; CommonMark 6.5: 2-32)
+	{src: "a<ab:c>d\n", want: "<p>a<a href=\"ab:c\">ab:c</a>d</p>\n", clause: "autolink-scheme-length-33-differs"},
+	{src: "a<abcdefghijklmnopqrstuvwxyzABCDEF:c>d\n", want: "<p>a<a href=\"abcdefghijklmnopqrstuvwxyzABCDEF:c\">abcdefghijklmnopqrstuvwxyzABCDEF:c</a>d</p>\n", clause: "autolink-scheme-length-33-differs"},
+	{src: "a<abcdefghijklmnopqrstuvwxyzABCDEFG:c>d\n", want: "<p>a&lt;abcdefghijklmnopqrstuvwxyzABCDEFG:c&gt;d</p>\n", clause: "autolink-scheme-length-33-differs"},
+	{src: "a<abcdefghijklmnopqrstuvwxyzABCDEFGH:c>d\n", want: "<p>a&lt;abcdefghijklmnopqrstuvwxyzABCDEFGH:c&gt;d</p>\n", clause: "autolink-scheme-length-33-differs"},
+	{src: "a<a:c>d\n", want: "<p>a&lt;a:c&gt;d</p>\n", clause: "autolink-scheme-length-33-differs"},
+	{src: "<abcdefghijklmnopqrstuvwxyzABCDEFG:c>\n", want: "<p>&lt;abcdefghijklmnopqrstuvwxyzABCDEFG:c&gt;</p>\n", clause: "autolink-scheme-length-33-differs"},
 	{src: "> [a\n>\tb]: /u\n\n[a b]", want: "<blockquote>\n</blockquote>\n<p><a href=\"/u\">a b</a></p>\n"},
 	{src: "> [a\n>\tb]: /u\n\n[a b]\n", want: "<blockquote>\n</blockquote>\n<p><a href=\"/u\">a b</a></p>\n"},
 	{src: ">\t[a\n>\tb]: /u\n\n[a b]\n", want: "<blockquote>\n</blockquote>\n<p><a href=\"/u\">a b</a></p>\n"},
